@@ -13,18 +13,14 @@ def jobs(rng, thorough):
     T = core.tables()
     out = []
     for _ in range(50000 if thorough else 500):
-        out.append((gen.conn_check(rng), rng.randrange(10 ** 9), rng.choice([0, 0, 3])))
+        out.append((gen.conn_check(rng, drops=True), rng.randrange(10 ** 9), rng.choice([0, 0, 3])))
     return out
 
 
 def run(ctx: core.Ctx):
-    ctx.lean_stage()
+    ctx.lean_stage(extra_props=("C17x",))
     b2check.run_b2(ctx, jobs, ["C17"], label="connection check")
-    # link drops at / right after opening the port and in mid-check: judged by the monitor only until the L4 model has the
-    # close()-after-failed-connect path (DESIGN.md Section 9)
-    b2check.run_b2(ctx, lambda rng, th: [(gen.conn_check(rng, drops=True), rng.randrange(10 ** 9), rng.choice([0, 0, 3])) for _ in range(20000 if th else 300)],
-                   ["C17"], label="connection check with link drops, monitor only", accept=False)
-    ctx.info["rule"] = ("zone subsets x latencies {0, 60, 99, 100, 101, 150, 400 ms, 1.2..3 s} x first probe swallowed or not x silent / EOF / cannot open; each under a seeded schedule, some with extra line-level preemptions; a case = one schedule; non-trivial = distinct (spec, seed)")
+    ctx.info["rule"] = ("zone subsets x latencies {0, 60, 99, 100, 101, 150, 400 ms, 1.2..3 s} x first probe swallowed or not x silent / EOF / cannot open / link drop at or right after opening the port and in mid-check; each under a seeded schedule, some with extra line-level preemptions; a case = one schedule; non-trivial = distinct (spec, seed)")
     return ctx.finish()
 
 
